@@ -49,6 +49,8 @@ type sysState struct {
 	mode    string // "cold" | "warm"
 	// per-query scripts of the attacker, keyed by lower-cased qname
 	scripts map[string]func(q dns.Question, honest *dns.Msg) *dns.Msg
+	// scripts that see the transport: UDP answers TC=1, the scripted reply waits on the TCP leg
+	tcpScripts map[string]func(q dns.Question, honest *dns.Msg, tcp bool) *dns.Msg
 	// spoofed datagrams emitted in front of the victim server's genuine reply, keyed by qname
 	spoof    map[string]func(req *dns.Msg) []*dns.Msg
 	asked    map[string]bool // client questions issued so far ("name/type")
@@ -135,12 +137,16 @@ func sysNew(mode string, qmin int, sec bool) {
 	e := w.AddZone(evilZone, l3.ZoneOpts{})
 	e.Add("a.evil.test. 300 IN A 198.18.1.1", "d.evil.test. 300 IN DNAME victim.test.", "c.evil.test. 300 IN CNAME a.evil.test.")
 	s := &sysState{w: w, victim: v, evil: e, vsrv: v.Servers[0], esrv: e.Servers[0], trap: trap, trapIP: trap.IP, localIP: local, mode: mode,
-		scripts: map[string]func(dns.Question, *dns.Msg) *dns.Msg{}, spoof: map[string]func(*dns.Msg) []*dns.Msg{}, asked: map[string]bool{}}
+		scripts: map[string]func(dns.Question, *dns.Msg) *dns.Msg{}, tcpScripts: map[string]func(dns.Question, *dns.Msg, bool) *dns.Msg{}, spoof: map[string]func(*dns.Msg) []*dns.Msg{}, asked: map[string]bool{}}
 	s.esrv.SetBehaviour(l3.Behaviour{Tamper: func(q dns.Question, honest *dns.Msg, tcp bool) *dns.Msg {
 		name := lcn(q.Name)
 		s.mu.RLock()
 		f, ok := s.scripts[name]
+		ft, okt := s.tcpScripts[name]
 		s.mu.RUnlock()
+		if okt {
+			return ft(q, honest, tcp)
+		}
 		if ok {
 			return f(q, honest)
 		}
@@ -458,7 +464,63 @@ func (s *sysState) attack(shape string, k int) (string, string) {
 			return m
 		}
 	}
+	// overTCP: the UDP query is answered with an honest TC=1 (forcing the resolver onto the
+	// stream leg), the scripted reply is what the TCP connection then delivers.
+	overTCP := func(name string, f func(m *dns.Msg)) {
+		trigger = name
+		s.tcpScripts[lcn(name)] = func(q dns.Question, honest *dns.Msg, tcp bool) *dns.Msg {
+			m := base(q, honest)
+			if !tcp {
+				m.Authoritative = false
+				m.Truncated = true
+				return m
+			}
+			f(m)
+			return m
+		}
+	}
 	switch shape {
+	// ---- replies on the stream leg that do not match the outstanding query (header flags must not matter)
+	case "tcp-honest":
+		overTCP(qn, func(m *dns.Msg) { m.Answer = []dns.RR{own} })
+	case "tcp-wrongq-glue", "tcp-wrongq-glue-tc", "tcp-wrongq-glue-tc-sf":
+		// a proper referral for the name that was asked, but the echoed question sits in the victim
+		// zone - whose name checkGlueRR would take its bailiwick from - and the glue is for the victim's own NS host
+		overTCP(deep, func(m *dns.Msg) {
+			m.Authoritative = false
+			m.Truncated = shape != "tcp-wrongq-glue"
+			if shape == "tcp-wrongq-glue-tc-sf" {
+				m.Rcode = dns.RcodeServerFailure
+			}
+			m.Question[0].Name = "x.sub.victim.test."
+			m.Ns = []dns.RR{rrNS(sub, "ns1.victim.test.", dns.ClassINET)}
+			withOpt(m, rrA("ns1.victim.test.", evilIP))
+		})
+	case "tcp-wrongq-answer", "tcp-wrongq-answer-tc":
+		overTCP(qn, func(m *dns.Msg) {
+			m.Truncated = shape == "tcp-wrongq-answer-tc"
+			m.Question[0].Name = "www.victim.test."
+			m.Answer = []dns.RR{rrA("www.victim.test.", forgedIP)}
+		})
+	case "tcp-wrongtype-tc", "tcp-noq-tc", "tcp-twoq-tc":
+		overTCP(qn, func(m *dns.Msg) {
+			m.Truncated = true
+			m.Answer = []dns.RR{own, rrA("www.victim.test.", forgedIP)}
+			switch shape {
+			case "tcp-wrongtype-tc":
+				m.Question[0].Qtype = dns.TypeAAAA
+			case "tcp-noq-tc":
+				m.Question = nil
+			default:
+				m.Question = append(m.Question, dns.Question{Name: "www.victim.test.", Qtype: dns.TypeA, Qclass: dns.ClassINET})
+			}
+		})
+	case "tcp-wrongid", "tcp-wrongid-tc":
+		overTCP(qn, func(m *dns.Msg) {
+			m.Id ^= 0x4242
+			m.Truncated = shape == "tcp-wrongid-tc"
+			m.Answer = []dns.RR{rrA(qn, forgedIP), rrA("www.victim.test.", forgedIP)}
+		})
 	// ---- positive answers with foreign records in each section
 	case "extra-a":
 		script(func(m *dns.Msg) { m.Answer = []dns.RR{own}; withOpt(m, rrA("www.victim.test.", forgedIP)) })
@@ -734,6 +796,8 @@ var allShapes = []string{
 	"nx-soa-victim", "nodata-extra",
 	"ref-self", "ref-up", "ref-root", "ref-side", "ref-mixed", "ref-class", "ref-offpath",
 	"glue-oob", "glue-strsuffix", "glue-notns", "glue-loop", "glue-local",
+	"tcp-honest", "tcp-wrongq-glue", "tcp-wrongq-glue-tc", "tcp-wrongq-glue-tc-sf", "tcp-wrongq-answer", "tcp-wrongq-answer-tc",
+	"tcp-wrongtype-tc", "tcp-noq-tc", "tcp-twoq-tc", "tcp-wrongid", "tcp-wrongid-tc",
 	"sig-cname-forged", "sig-ans-a", "sig-ans-ns", "sig-ans-dname", "sig-ans-foreign-sig",
 	"pre-wrongid", "pre-manystrays", "pre-manystrays-mixed", "pre-wrongq", "pre-wrongboth", "pre-noq", "pre-twoq", "pre-wrongtype", "pre-wrongclass",
 }
